@@ -50,6 +50,14 @@ func checkProve(c proveCase) (h.Info, error) {
 	if !bytes.Equal(pub, wantPK) {
 		return info, fmt.Errorf("public key %x, reference %x", []byte(pub), wantPK)
 	}
+	// the private key as a sub-slice with spare capacity: nothing behind it may be touched
+	store := append(append(make([]byte, 0, 64+len(c.Alpha)+40), priv...), bytes.Repeat([]byte{0x5a}, len(c.Alpha)+40)...)
+	if p0 := vrf.Prove(vrf.PrivateKey(store[:64]), append([]byte{}, c.Alpha...)).Bytes(); !bytes.Equal(p0, wantPi) {
+		return info, fmt.Errorf("Prove with a private-key slice that has spare capacity = %x, reference %x", p0, wantPi)
+	}
+	if !bytes.Equal(store[:64], priv) || !bytes.Equal(store[64:], bytes.Repeat([]byte{0x5a}, len(c.Alpha)+40)) {
+		return info, fmt.Errorf("Prove wrote into or behind the caller's private key slice")
+	}
 	proof := vrf.Prove(priv, append([]byte{}, c.Alpha...))
 	pi := proof.Bytes()
 	if !bytes.Equal(pi, wantPi) {
@@ -113,6 +121,9 @@ func TestProve(t *testing.T) {
 	})
 }
 
+var reusedProof = new(vrf.Proof)
+var primerPi, _, _ = ref.Prove(bytes.Repeat([]byte{3}, 32), []byte("primer"))
+
 // ---- Verify / decoding ----
 
 type verifyCase struct {
@@ -140,11 +151,18 @@ func checkVerify(c verifyCase) (h.Info, error) {
 	if !ok && beta != nil {
 		return info, fmt.Errorf("rejected proof returned a hash")
 	}
-	// same verdict when key, alpha and proof are adjacent sub-slices of one buffer; inputs unmodified
-	{
-		buf := append(append(append(make([]byte, 0, 32+len(c.Alpha)+len(c.Pi)+64), c.PK...), c.Alpha...), c.Pi...)
+	// same verdict when key, alpha and proof are adjacent sub-slices of one buffer (two orders); inputs unmodified
+	for layout := 0; layout < 2; layout++ {
+		var buf, k, a, p []byte
+		if layout == 0 {
+			buf = append(append(append(make([]byte, 0, 32+len(c.Alpha)+len(c.Pi)+64), c.PK...), c.Alpha...), c.Pi...)
+			k, a, p = buf[:32], buf[32:32+len(c.Alpha)], buf[32+len(c.Alpha):]
+		} else { // a wire message key || proof || alpha
+			buf = append(append(append(make([]byte, 0, 32+len(c.Alpha)+len(c.Pi)+64), c.PK...), c.Pi...), c.Alpha...)
+			k, p, a = buf[:32], buf[32:32+len(c.Pi)], buf[32+len(c.Pi):]
+		}
 		snap := append([]byte{}, buf...)
-		ok2, beta2 := vrf.Verify(vrf.PublicKey(buf[:32]), buf[32:32+len(c.Alpha)], buf[32+len(c.Alpha):])
+		ok2, beta2 := vrf.Verify(vrf.PublicKey(k), a, p)
 		if ok2 != ok || !bytes.Equal(beta2, beta) {
 			return info, fmt.Errorf("Verify(pk=%x, alpha=%x, pi=%x) = %v when the arguments are adjacent sub-slices of one buffer, %v otherwise", []byte(c.PK), []byte(c.Alpha), []byte(c.Pi), ok2, ok)
 		}
@@ -163,6 +181,18 @@ func checkVerify(c verifyCase) (h.Info, error) {
 				hb, _ := ref.ProofToHash(hpi)
 				if !bytes.Equal(beta, hb) {
 					return info, fmt.Errorf("proof %x accepted for key %x / alpha %x with hash %x, but the honest hash is %x", []byte(c.Pi), []byte(c.PK), []byte(c.Alpha), beta, hb)
+				}
+			}
+		}
+	}
+	// a Proof value that is reused: SetBytes(other proof), Hash, SetBytes(this one), Hash
+	if _, _, _, okd := ref.DecodeProof(c.Pi); okd {
+		if _, err := reusedProof.SetBytes(primerPi); err == nil {
+			_ = reusedProof.Hash()
+			if _, err := reusedProof.SetBytes(append([]byte{}, c.Pi...)); err == nil {
+				wb, _ := ref.ProofToHash(c.Pi)
+				if hb := reusedProof.Hash(); !bytes.Equal(hb, wb) || !bytes.Equal(reusedProof.Bytes(), c.Pi) {
+					return info, fmt.Errorf("a reused Proof value: after SetBytes(%x) Hash() = %x, reference %x", []byte(c.Pi), hb, wb)
 				}
 			}
 		}
